@@ -109,7 +109,8 @@ pub fn gen_struct(d: &mut D, id: usize, tr: Trait, structs: &[usize], enums: &[u
     }
     c.default = *d.pick(&[Dflt::None, Dflt::None, Dflt::Trait, Dflt::Fn]);
     c.allow_unknown = d.ratio(1, 5);
-    let n = d.range(1, 5);
+    // (a receiver without any field is a boundary worth having: `struct R {}`)
+    let n = if d.ratio(1, 12) { 0 } else { d.range(1, 5) };
     let names = field_names(d, n, id);
     let mut fields: Vec<Field> = names
         .into_iter()
@@ -122,7 +123,7 @@ pub fn gen_struct(d: &mut D, id: usize, tr: Trait, structs: &[usize], enums: &[u
         .cloned()
         .filter(|k| specs.iter().find(|s| s.id == *k).map(|s| s.container.from_word == Call::None || true).unwrap_or(false))
         .collect();
-    if d.ratio(1, 3) {
+    if !fields.is_empty() && d.ratio(1, 3) {
         let j = d.below(fields.len());
         let ty = if !flat_targets.is_empty() && d.ratio(2, 3) {
             let k = *d.pick(&flat_targets);
@@ -202,7 +203,8 @@ pub fn gen_enum(d: &mut D, id: usize, structs: &[usize], enums: &[usize]) -> Spe
                 0 => VShape::Unit,
                 1 => VShape::Newtype(gen_ty(d, structs, enums, true)),
                 _ => {
-                    let k = d.range(1, 3);
+                    // (`V {}` - a struct variant without fields - included)
+                    let k = if d.ratio(1, 6) { 0 } else { d.range(1, 3) };
                     let names: Vec<String> = (0..k).map(|j| format!("{}{}v{}", ["fa", "fb_c", "fd"][j], id, i)).collect();
                     let mut fs: Vec<Field> = names
                         .into_iter()
@@ -745,7 +747,7 @@ fn good_value_with_mistakes(w: &World, ty: &Ty, d: &mut D, depth: usize, st: &mu
                         }
                         _ => {
                             let structs: Vec<&&Variant> = live.iter().filter(|v| matches!(v.shape, VShape::Struct(_))).collect();
-                            if let Some(v) = structs.first() {
+                            if let Some(v) = if structs.is_empty() { None } else { Some(structs[d.below(structs.len())]) } {
                                 if let VShape::Struct(fs) = &v.shape {
                                     let pseudo = Container { rename_all: s.container.rename_all.clone(), allow_unknown: s.container.allow_unknown, ..Default::default() };
                                     return Syn::List(vec![Node::Item(variant_name(s, v), Syn::List(gen_field_items(w, fs, &pseudo, d, Mode::Mistakes(n), depth + 2, st)))]);
